@@ -317,6 +317,7 @@ type vRow struct {
 	TotFees   uint64   `json:"totfees"`
 	Recv      uint64   `json:"recv"`
 	Prob      float64  `json:"-"`
+	final     *route.Hop
 
 	// getedge rows
 	Local   bool     `json:"local,omitempty"`
@@ -477,6 +478,7 @@ func (c *vCase) run(ci int, variant string) *vRow {
 		row.HopSizes = append(row.HopSizes, h.PayloadSize(next))
 		row.HopFees = append(row.HopFees, uint64(rt.HopFee(i)))
 	}
+	row.final = rt.Hops[len(rt.Hops)-1]
 	row.TotalAmt = uint64(rt.TotalAmount)
 	row.TotalTL = rt.TotalTimeLock
 	row.TotFees = uint64(rt.TotalFees())
@@ -510,7 +512,7 @@ func vPos(x int64) uint64 {
 
 func vGenPol(r *vrng, amt uint64, tight bool) *vPol {
 	p := &vPol{}
-	p.Disabled = r.intn(12) == 0
+	p.Disabled = r.intn(16) == 0
 	switch r.intn(4) {
 	case 0:
 		p.Min = 0
@@ -570,7 +572,7 @@ func vGenPol(r *vrng, amt uint64, tight bool) *vPol {
 	case 2:
 		p.Delta = uint16(r.intn(200))
 	default:
-		p.Delta = uint16(r.intn(2016))
+		p.Delta = uint16(r.intn(700))
 	}
 	return p
 }
@@ -675,6 +677,11 @@ func vGenCase(r *vrng) *vCase {
 		if a == b {
 			continue
 		}
+		if ((a == c.src && b == c.dst) || (a == c.dst && b == c.src)) &&
+			r.intn(4) != 0 {
+
+			continue
+		}
 		ch := addChan(a, b)
 		if r.intn(3) == 0 {
 			// parallel channel, often with the same distance
@@ -717,7 +724,7 @@ func vGenCase(r *vrng) *vCase {
 		}
 	}
 	c.feeLimit = []uint64{c.amt, c.amt / 10, 1 << 40, uint64(r.intn(5000)),
-		c.amt / 100, 0}[r.intn(6)]
+		c.amt / 100, c.amt * 3, 0}[r.intn(7)]
 	if r.intn(2) == 0 {
 		c.feeLimit = 1 << 40
 	}
@@ -831,22 +838,27 @@ func vTighten(r *vrng, c *vCase, rt *vRow) string {
 		}
 		return "cltvlimit"
 	case 6:
-		// payload limit: pad the final hop so that the onion is at
-		// the limit +-2
-		room := int(sphinx.MaxRoutingPayloadSize) - rt.OnionSize
+		// payload limit: choose the metadata length for which the
+		// onion payload is exactly at the limit, one below or one
+		// above (searched with the real size function).
 		if c.custom >= 0 || c.payAddr {
 			c.custom, c.payAddr = -1, false
 			return "payload-reset"
 		}
-		cur := c.metaLen
-		if cur < 0 {
-			cur = 0
-			room -= 2
+		others := rt.OnionSize - int(rt.Sizes[len(rt.Sizes)-1])
+		want := int(sphinx.MaxRoutingPayloadSize) + int(d) - 1
+		fh := *rt.final
+		best := -1
+		for l := 0; l < 1400; l++ {
+			fh.Metadata = make([]byte, l)
+			if others+int(fh.PayloadSize(0)) <= want {
+				best = l
+			}
 		}
-		c.metaLen = cur + room + int(d) - 3
-		if c.metaLen < 0 {
-			c.metaLen = 0
+		if best < 0 {
+			return "payload-skip"
 		}
+		c.metaLen = best
 		return "payload"
 	case 7:
 		pol.Disabled = true
@@ -1003,10 +1015,23 @@ func TestVerifRoute(t *testing.T) {
 	out := vOpenOut()
 	defer out.close()
 	master := vNewRng(vSeed())
-	ncases := vCases(700, 12000)
+	ncases := vCases(600, 4000)
 	rounds := int(vEnvInt("VERIF_ROUNDS", 5))
 
+	// replay: VERIF_ONLY / VERIF_ONLY_GE restrict the run to one case
+	only := int(vEnvInt("VERIF_ONLY", -1))
+	onlyGE := int(vEnvInt("VERIF_ONLY_GE", -1))
+	if onlyGE >= 0 && only < 0 {
+		ncases = 0
+	}
+	if only >= 0 {
+		ncases = only + 1
+	}
+
 	for ci := 0; ci < ncases; ci++ {
+		if only >= 0 && ci != only {
+			continue
+		}
 		r := master.fork(uint64(ci))
 		c := vGenCase(r)
 		row := c.run(ci, "base")
@@ -1015,6 +1040,22 @@ func TestVerifRoute(t *testing.T) {
 		// move one constraint to the exact value the route needs
 		// (+-1) or forbid one of its elements, and search again.
 		cur, last := c, row
+		if row.Kind != "route" {
+			// Unroutable as generated: lift the restrictions (the
+			// graph stays) to obtain a route to tighten from.
+			rc := c.clone()
+			rc.feeLimit, rc.cltvLim = 1<<40, 1000000
+			rc.ignNodes, rc.ignPairs, rc.outChans = nil, nil, nil
+			rc.lastHop, rc.minProb = -1, 0
+			for id, bw := range rc.hints {
+				if bw < 4*rc.amt {
+					delete(rc.hints, id)
+				}
+			}
+			rrow := rc.run(ci, "relaxed")
+			out.emit(rrow)
+			cur, last = rc, rrow
+		}
 		for k := 0; k < rounds && last.Kind == "route"; k++ {
 			next := cur.clone()
 			name := vTighten(r, next, last)
@@ -1030,9 +1071,18 @@ func TestVerifRoute(t *testing.T) {
 			}
 		}
 	}
-	ng := vCases(600, 20000)
+	ng := vCases(600, 8000)
+	if only >= 0 && onlyGE < 0 {
+		ng = 0
+	}
+	if onlyGE >= 0 {
+		ng = onlyGE + 1
+	}
 	gr := vNewRng(vSeed() ^ 0x6765746564676500)
 	for i := 0; i < ng; i++ {
+		if onlyGE >= 0 && i != onlyGE {
+			continue
+		}
 		out.emit(vGetEdgeRow(gr.fork(uint64(i)), i))
 	}
 }
